@@ -22,7 +22,7 @@ import (
 var c17Epoch = time.Unix(1_700_000_000, 0)
 
 type c17Op struct {
-	K    string `json:"k"` // save | resave | remove | read
+	K    string `json:"k"` // save | resave | remove | read | balsave | balremove (the balance entries of the same cache)
 	From int    `json:"from"`
 	To   int    `json:"to"`
 	Tx   int    `json:"tx"` // index into the case's transaction list (remove/resave)
@@ -121,6 +121,24 @@ func c17Run(c c17Case) (sig, msg string, nontrivial bool) {
 				delete(model, hash)
 			}
 		case "read":
+		case "balsave":
+			// the same cache object also holds balances, keyed by the address string the notary passes in
+			h.SaveBalance(ks[op.From%c.Wallets].Addr, spice.New(uint64(step), 7))
+		case "balremove":
+			// the notary drops cached balances of a sealed transfer's issuer AND receiver; the receiver address of a
+			// transfer is whatever string the client put there, so any key can arrive here - none may touch a listing
+			key := ks[op.From%c.Wallets].Addr
+			switch op.By {
+			case 1:
+				key = "address-" + key
+				nontrivial = true
+			case 2:
+				if len(txs) > 0 {
+					key = fmt.Sprintf("trx-%x", txs[op.Tx%len(txs)].Hash[:])
+					nontrivial = true
+				}
+			}
+			h.RemoveBalance(key)
 		}
 		// Reading a listing prunes stale hashes as a side effect, so reading every address after every step would
 		// repair (and hide) a list that a removal left inconsistent. Listings are therefore compared only where the
@@ -293,7 +311,7 @@ func c17Concurrent(c c17Batch) (sig, msg string) {
 }
 
 func TestC17(t *testing.T) {
-	st := newStats(t, "C17", "sequential: rapid-generated save/resave/remove/read sequences over 2-5 addresses on a fresh cache, listings of every address compared with a map model after every step; concurrent: rounds of 4-32 parallel saves of distinct transactions (every third saved by 2-8 callers at once) + removals of earlier ones (optionally racing with a re-save of the same transaction) + reads on shared addresses with varied GOMAXPROCS, listings compared at quiescence: nothing lost, nothing invented, nothing listed twice, raced removals listed for both sides or for neither; non-trivial = sequence has a successful remove after a save (sequential) / every concurrent batch (overlapping ops on one address by construction); distinct by op-sequence / batch-shape fingerprint")
+	st := newStats(t, "C17", "sequential: rapid-generated save/resave/remove/read sequences over 2-5 addresses on a fresh cache, mixed with saves and removals of cached BALANCES on the same cache object (removal keys as the notary passes them: a sealed transfer's receiver string, i.e. anything, including 'address-<addr>' and 'trx-<hash>'), listings of every address compared with a map model after every step; concurrent: rounds of 4-32 parallel saves of distinct transactions (every third saved by 2-8 callers at once) + removals of earlier ones (optionally racing with a re-save of the same transaction) + reads on shared addresses with varied GOMAXPROCS, listings compared at quiescence: nothing lost, nothing invented, nothing listed twice, raced removals listed for both sides or for neither; non-trivial = sequence has a successful remove after a save (sequential) / every concurrent batch (overlapping ops on one address by construction); distinct by op-sequence / batch-shape fingerprint")
 	t.Run("sequential", func(t *testing.T) {
 		rapid.Check(t, func(rt *rapid.T) {
 			if pastSoftDeadline(st) {
@@ -302,11 +320,14 @@ func TestC17(t *testing.T) {
 			c := c17Case{Wallets: rapid.IntRange(2, 5).Draw(rt, "wallets")}
 			n := rapid.IntRange(1, 40).Draw(rt, "n")
 			for i := 0; i < n; i++ {
-				op := c17Op{K: rapid.SampledFrom([]string{"save", "save", "save", "resave", "remove", "remove", "read"}).Draw(rt, "k")}
+				op := c17Op{K: rapid.SampledFrom([]string{"save", "save", "save", "save", "resave", "remove", "remove", "read", "read", "balsave", "balremove"}).Draw(rt, "k")}
 				op.From = rapid.IntRange(0, c.Wallets-1).Draw(rt, "from")
 				op.To = rapid.IntRange(0, c.Wallets-1).Draw(rt, "to")
 				op.Tx = rapid.IntRange(0, 40).Draw(rt, "tx")
 				op.By = rapid.IntRange(-1, c.Wallets-1).Draw(rt, "by")
+				if op.K == "balremove" {
+					op.By = rapid.IntRange(0, 2).Draw(rt, "balKey")
+				}
 				if op.K == "remove" && rapid.Bool().Draw(rt, "byReceiver") {
 					op.By = -2 // resolved below: the receiver of the chosen tx
 				}
